@@ -3,5 +3,8 @@ import KalignModel.Props.C05Pipeline
 import KalignModel.Props.SoftFloat
 import KalignModel.Props.C05PipelineSoft
 import KalignModel.Props.C05PipelineSoftL
+import KalignModel.Props.C05PipelineSoftFinal
+import KalignModel.Props.C05PipelineSoft2
+import KalignModel.Props.C05PipelineSoft2Ex
 /-! aggregator: the reader/table/path theorems of C05, the pipeline no-fault theorems, the software binary32 and the monitor theorems on
-it, audited together by tools/props/c05.py -/
+it, the unconditional no-fault theorems of the SoftF32 pipeline, audited together by tools/props/c05.py -/
